@@ -33,7 +33,7 @@ def verify(seed):
             os.makedirs(os.path.dirname(place), exist_ok=True)
             src = [f for f in demos if os.path.basename(f) == os.path.basename(place)] or demos
             shutil.copy(src[0], place)
-    cmd = re.sub(r"/tmp/wt2?-C\d\d", WT, meta["demo_cmd"])
+    cmd = re.sub(r"/tmp/wt\d?-C\d\d", WT, meta["demo_cmd"])
     put()
     rc0, out0 = sh(cmd, cwd=WT)
     print("demo WITHOUT change: rc=%d %s" % (rc0, "(ok)" if rc0 == 0 else "UNEXPECTED\n" + out0[-1500:]))
